@@ -72,6 +72,7 @@ def _update_optimal_result(
         if (
             isinstance(transformed_item, FunctionResults)
             and transformed_item.functions is not None
+            and not np.isnan(transformed_item.functions.weighted_objective)
             and not _violates_constraint(transformed_item, constraint_tolerance)
         ):
             assert isinstance(item, FunctionResults)
